@@ -276,3 +276,412 @@ example : msgOK ⟨5, 0, none, some [1, 2, 3]⟩ ∧ isPlain ⟨5, 0, none, some
   · unfold isPlain; decide
 
 end Kafka.Props.C02
+
+/-! ## any codec, any nesting depth -/
+
+namespace Kafka.Props.C02.Nested
+open Kafka Kafka.Spec Kafka.Model Kafka.Props.C02
+
+/-- log entries nested at most `d` levels: a plain message, or a wrapper (gzip / snappy) around entries of the level below -/
+@[reducible] def Entry : Nat → Type
+  | 0 => Msg
+  | d+1 => Msg ⊕ (Bool × Int × List (Entry d))
+
+def cid (snappy : Bool) : Int := if snappy then 2 else 1
+
+def wire (comp : Int → Bytes → Bytes) : (d : Nat) → Entry d → Bytes
+  | 0, m => encMsg m
+  | _+1, .inl m => encMsg m
+  | d+1, .inr (c, last, inner) => encMsg ⟨last, cid c, none, some (comp (cid c) (inner.flatMap (wire comp d)))⟩
+
+def flat : (d : Nat) → Entry d → List Msg
+  | 0, m => [m]
+  | _+1, .inl m => [m]
+  | d+1, .inr (_, _, inner) => inner.flatMap (flat d)
+
+def entryOK (comp : Int → Bytes → Bytes) : (d : Nat) → Entry d → Prop
+  | 0, m => msgOK m ∧ isPlain m
+  | _+1, .inl m => msgOK m ∧ isPlain m
+  | d+1, .inr (c, last, inner) =>
+      msgOK ⟨last, cid c, none, some (comp (cid c) (inner.flatMap (wire comp d)))⟩ ∧ ∀ e ∈ inner, entryOK comp d e
+
+def cut (comp : Int → Bytes → Bytes) (d : Nat) : List (Entry d) → Nat → List (Entry d)
+  | [], _ => []
+  | e :: r, t => if (wire comp d e).length ≤ t then e :: cut comp d r (t - (wire comp d e).length) else []
+
+
+/-- the decompressors undo the brokers' compressors (gzip: codec 1; snappy in xerial framing: codec 2) -/
+structure Inv (cx : Codecs) (comp : Int → Bytes → Bytes) : Prop where
+  gzip : ∀ b, cx.gunzip (comp 1 b) = some b
+  snappy : ∀ b, ∃ s, validateStream (comp 2 b) = .ok s ∧ snappyChunks cx.unsnap (s.length + 1) s [] = .ok b
+
+theorem ne_of_len (w : Msg) (rest : Bytes) : (encMsg w ++ rest).isEmpty = false := by
+  have := encMsg_len_pos w
+  cases hh : encMsg w with
+  | nil => simp [hh] at this
+  | cons a b => simp
+
+/-- one loop step over a complete plain message -/
+theorem step_plain (cx : Codecs) (debug : Bool) (D f : Nat) (m : Msg) (hm : msgOK m) (hp : isPlain m) (rest : Bytes)
+    (req : Int) (validate : Bool) (acc : List Message) :
+    fromSlice cx debug D (f + 1) (encMsg m ++ rest) req validate acc =
+      fromSlice cx debug D f rest req validate (acc ++ want [m] req) := by
+  rw [fromSlice]
+  simp only [ne_of_len m rest, Bool.false_eq_true, if_false]
+  rw [nextMessage_enc m hm validate]
+  unfold isPlain at hp
+  simp only [hp, if_true]
+  simp only [want, List.filter_cons, List.filter_nil]
+  by_cases hoff : m.offset ≥ req
+  · simp [hoff, asMessage]
+  · simp [hoff]
+
+/-- a cut entry ends the set silently -/
+theorem step_cut (cx : Codecs) (debug : Bool) (D fuel : Nat) (w : Msg) (hw : msgOK w) (t : Nat) (ht : t < (encMsg w).length)
+    (req : Int) (validate : Bool) (acc : List Message) :
+    fromSlice cx debug D fuel ((encMsg w).take t) req validate acc = .ok acc := by
+  cases fuel with
+  | zero => rw [fromSlice]
+  | succ f =>
+    rw [fromSlice]
+    by_cases h0 : t = 0
+    · subst h0; simp
+    · have hne : ((encMsg w).take t).isEmpty = false := by
+        have := encMsg_len_pos w
+        cases hh : encMsg w with
+        | nil => simp [hh] at this
+        | cons a b =>
+          cases t with
+          | zero => exact absurd rfl h0
+          | succ n => simp
+      simp only [hne, Bool.false_eq_true, if_false]
+      rw [nextMessage_trunc w hw validate t ht]
+
+/-- one loop step over a complete wrapper whose inner set decodes to `ms` -/
+theorem step_wrap (cx : Codecs) (comp : Int → Bytes → Bytes) (hinv : Inv cx comp) (debug : Bool) (D f : Nat)
+    (c : Bool) (last : Int) (ib : Bytes) (hw : msgOK ⟨last, cid c, none, some (comp (cid c) ib)⟩) (rest : Bytes)
+    (req : Int) (validate : Bool) (acc ms : List Message)
+    (hin : fromSlice cx debug D (ib.length + 1) ib req validate [] = .ok ms) :
+    fromSlice cx debug (D + 1) (f + 1) (encMsg ⟨last, cid c, none, some (comp (cid c) ib)⟩ ++ rest) req validate acc =
+      fromSlice cx debug (D + 1) f rest req validate (acc ++ ms) := by
+  rw [fromSlice]
+  simp only [ne_of_len _ rest, Bool.false_eq_true, if_false]
+  rw [nextMessage_enc _ hw validate]
+  cases c with
+  | false =>
+    have hc : toU 1 (cid false) % 8 = 1 := by decide
+    simp only [hc, show ¬ ((1 : Nat) = 0) by decide, if_false, if_true, Option.getD_some]
+    have : cid false = 1 := rfl
+    rw [this, hinv.gzip]
+    simp only [hin]
+  | true =>
+    have hc : toU 1 (cid true) % 8 = 2 := by decide
+    simp only [hc, show ¬ ((2 : Nat) = 0) by decide, show ¬ ((2 : Nat) = 1) by decide, if_false, if_true, Option.getD_some]
+    have : cid true = 2 := rfl
+    rw [this]
+    obtain ⟨s, hs1, hs2⟩ := hinv.snappy ib
+    simp only [hs1, hs2, hin]
+
+
+theorem wire_len_pos' (comp : Int → Bytes → Bytes) : (d : Nat) → (e : Entry d) → 12 ≤ (wire comp d e).length
+  | 0, m => encMsg_len_pos m
+  | _+1, .inl m => encMsg_len_pos m
+  | _+1, .inr (_, _, _) => encMsg_len_pos _
+
+theorem cut_length (comp : Int → Bytes → Bytes) (d : Nat) (es : List (Entry d)) (t : Nat) : (cut comp d es t).length ≤ es.length := by
+  induction es generalizing t with
+  | nil => simp [cut]
+  | cons e r ih => simp only [cut]; split <;> simp; exact ih _
+
+theorem cut_all (comp : Int → Bytes → Bytes) (d : Nat) (es : List (Entry d)) (t : Nat)
+    (h : (es.flatMap (wire comp d)).length ≤ t) : cut comp d es t = es := by
+  induction es generalizing t with
+  | nil => rfl
+  | cons e r ih =>
+    have hl : ((e :: r).flatMap (wire comp d)).length = (wire comp d e).length + (r.flatMap (wire comp d)).length := by simp
+    simp only [cut]
+    have : (wire comp d e).length ≤ t := by omega
+    simp only [this, if_true]
+    rw [ih _ (by omega)]
+
+theorem count_le_len (comp : Int → Bytes → Bytes) (d : Nat) (es : List (Entry d)) : es.length ≤ (es.flatMap (wire comp d)).length := by
+  induction es with
+  | nil => simp
+  | cons e r ih =>
+    have := wire_len_pos' comp d e
+    simp only [List.flatMap_cons, List.length_append, List.length_cons]; omega
+
+theorem flat_zero (m : Msg) : flat 0 m = [m] := rfl
+theorem flat_inl (d : Nat) (m : Msg) : flat (d + 1) (Sum.inl m) = [m] := rfl
+theorem flat_inr (d : Nat) (c : Bool) (last : Int) (inner : List (Entry d)) :
+    flat (d + 1) (Sum.inr (c, last, inner)) = inner.flatMap (flat d) := rfl
+
+/-- the first message an entry puts on the wire (the message itself, or the wrapper) is well-formed -/
+def head (comp : Int → Bytes → Bytes) : (d : Nat) → Entry d → Msg
+  | 0, m => m
+  | _+1, .inl m => m
+  | d+1, .inr (c, last, inner) => ⟨last, cid c, none, some (comp (cid c) (inner.flatMap (wire comp d)))⟩
+
+theorem wire_head (comp : Int → Bytes → Bytes) : (d : Nat) → (e : Entry d) → wire comp d e = encMsg (head comp d e)
+  | 0, _ => rfl
+  | _+1, .inl _ => rfl
+  | _+1, .inr (_, _, _) => rfl
+
+theorem head_ok (comp : Int → Bytes → Bytes) : (d : Nat) → (e : Entry d) → entryOK comp d e → msgOK (head comp d e)
+  | 0, _, h => h.1
+  | _+1, .inl _, h => h.1
+  | _+1, .inr (_, _, _), h => h.1
+
+/-- **any sequence of plain messages and gzip / snappy wrappers, nested to any depth the decoder admits, cut anywhere**:
+    with decompressors that undo the brokers' compressors, decoding the first `t` bytes returns exactly the messages of
+    the entries lying wholly inside them - wrappers opened level by level - at or above the requested offset, in log
+    order; a cut entry (plain or wrapper) ends the set silently.  `d` = nesting levels present, `d + k` = levels admitted. -/
+theorem C02_nested (cx : Codecs) (comp : Int → Bytes → Bytes) (hinv : Inv cx comp) (debug : Bool) (req : Int) (validate : Bool) :
+    ∀ (d k : Nat) (es : List (Entry d)) (t fuel : Nat) (acc : List Message),
+      (∀ e ∈ es, entryOK comp d e) → (cut comp d es t).length ≤ fuel →
+      fromSlice cx debug (d + k) fuel ((es.flatMap (wire comp d)).take t) req validate acc =
+        .ok (acc ++ want ((cut comp d es t).flatMap (flat d)) req) := by
+  intro d
+  induction d with
+  | zero =>
+    intro k es
+    induction es with
+    | nil =>
+      intro t fuel acc _ _
+      cases fuel with
+      | zero => rw [fromSlice]; simp [cut, want]
+      | succ f => rw [fromSlice]; simp [cut, want]
+    | cons e r ih =>
+      intro t fuel acc hok hfuel
+      have he := hok e (by simp)
+      simp only [List.flatMap_cons]
+      by_cases hle : (wire comp 0 e).length ≤ t
+      · simp only [cut, hle, if_true] at hfuel ⊢
+        cases fuel with
+        | zero => simp at hfuel
+        | succ f =>
+          rw [List.take_append, List.take_of_length_le hle]
+          show fromSlice cx debug (0 + k) (f + 1) (encMsg e ++ _) req validate acc = _
+          rw [step_plain cx debug (0 + k) f e he.1 he.2]
+          rw [ih _ f _ (fun x hx => hok x (by simp [hx])) (by simp at hfuel; omega)]
+          (simp only [want, List.flatMap_cons, List.filter_append, List.map_append, List.append_assoc]; rfl)
+      · have hlt : t < (wire comp 0 e).length := by omega
+        simp only [cut, hle, if_false, want, List.flatMap_nil, List.filter_nil, List.map_nil, List.append_nil]
+        rw [List.take_append_of_le_length (by omega)]
+        exact step_cut cx debug (0 + k) fuel e he.1 t hlt req validate acc
+  | succ d ihd =>
+    intro k es
+    induction es with
+    | nil =>
+      intro t fuel acc _ _
+      cases fuel with
+      | zero => rw [fromSlice]; simp [cut, want]
+      | succ f => rw [fromSlice]; simp [cut, want]
+    | cons e r ih =>
+      intro t fuel acc hok hfuel
+      have he := hok e (by simp)
+      simp only [List.flatMap_cons]
+      by_cases hle : (wire comp (d + 1) e).length ≤ t
+      · simp only [cut, hle, if_true] at hfuel ⊢
+        cases fuel with
+        | zero => simp at hfuel
+        | succ f =>
+          rw [List.take_append, List.take_of_length_le hle]
+          have hrest := fun acc' => ih (t - (wire comp (d + 1) e).length) f acc' (fun x hx => hok x (by simp [hx])) (by simp at hfuel; omega)
+          match e, he, hrest with
+          | .inl m, he, hrest =>
+            show fromSlice cx debug (d + 1 + k) (f + 1) (encMsg m ++ _) req validate acc = _
+            rw [step_plain cx debug (d + 1 + k) f m he.1 he.2]
+            rw [hrest]
+            (simp only [want, List.flatMap_cons, List.filter_append, List.map_append, List.append_assoc]; rfl)
+          | .inr (c, last, inner), he, hrest =>
+            have hD : d + 1 + k = (d + k) + 1 := by omega
+            show fromSlice cx debug (d + 1 + k) (f + 1) (encMsg ⟨last, cid c, none, some (comp (cid c) (inner.flatMap (wire comp d)))⟩ ++ _) req validate acc = _
+            rw [hD]
+            have hinner := ihd k inner (inner.flatMap (wire comp d)).length ((inner.flatMap (wire comp d)).length + 1) [] he.2 (by
+              have h1 := cut_length comp d inner (inner.flatMap (wire comp d)).length
+              have h2 := count_le_len comp d inner
+              omega)
+            rw [List.take_of_length_le (Nat.le_refl _), cut_all comp d inner _ (Nat.le_refl _)] at hinner
+            rw [step_wrap cx comp hinv debug (d + k) f c last _ he.1 _ req validate acc _ hinner]
+            rw [← hD, hrest]
+            (simp only [want, List.flatMap_cons, List.filter_append, List.map_append, List.append_assoc]; rfl)
+      · have hlt : t < (wire comp (d + 1) e).length := by omega
+        simp only [cut, hle, if_false, want, List.flatMap_nil, List.filter_nil, List.map_nil, List.append_nil]
+        rw [List.take_append_of_le_length (by omega)]
+        rw [wire_head] at hlt ⊢
+        exact step_cut cx debug (d + 1 + k) fuel _ (head_ok comp (d + 1) e he) t hlt req validate acc
+
+
+/-! ### xerial framing (snappy.rs): header, then (int32 length, block) per chunk -/
+
+def frameBlock (c : Bytes) : Bytes := eI32 (c.length : Int) ++ c
+
+def xerialFrame (blocks : List Bytes) : Bytes := snappyMagic ++ eI32 1 ++ eI32 1 ++ blocks.flatMap frameBlock
+
+def blockOK (c : Bytes) : Prop := 0 < c.length ∧ c.length ≤ 2147483647
+
+theorem validate_frame (blocks : List Bytes) : validateStream (xerialFrame blocks) = .ok (blocks.flatMap frameBlock) := by
+  unfold validateStream xerialFrame
+  have hlen : ¬ (snappyMagic ++ eI32 1 ++ eI32 1 ++ blocks.flatMap frameBlock).length < 8 := by
+    simp [snappyMagic]
+  simp only [hlen, if_false]
+  have htake : (snappyMagic ++ eI32 1 ++ eI32 1 ++ blocks.flatMap frameBlock).take 8 = snappyMagic := by
+    simp [snappyMagic, List.append_assoc]
+  have hdrop : (snappyMagic ++ eI32 1 ++ eI32 1 ++ blocks.flatMap frameBlock).drop 8 = eI32 1 ++ (eI32 1 ++ blocks.flatMap frameBlock) := by
+    simp [snappyMagic, List.append_assoc]
+  simp only [htake, ne_eq, not_true_eq_false, if_false, hdrop]
+  rw [show eI32 1 = encI 4 1 from rfl, readI_append 4 (by decide) 1 (by decide)]
+  simp only [ne_eq, not_true_eq_false, if_false]
+  rw [readI_append 4 (by decide) 1 (by decide)]
+  simp
+
+/-- the chunk loop over a well-formed frame: every block goes through the block decoder, the outputs are concatenated -/
+theorem chunks_frame (unsnap : Bytes → Option Bytes) :
+    ∀ (blocks : List Bytes) (outs : List Bytes) (fuel : Nat) (acc : Bytes),
+      (∀ c ∈ blocks, blockOK c) → blocks.mapM unsnap = some outs → blocks.length ≤ fuel →
+      snappyChunks unsnap fuel (blocks.flatMap frameBlock) acc = .ok (acc ++ outs.flatten) := by
+  intro blocks
+  induction blocks with
+  | nil =>
+    intro outs fuel acc _ hm _
+    simp at hm; subst hm
+    cases fuel <;> simp [snappyChunks]
+  | cons c r ih =>
+    intro outs fuel acc hok hm hfuel
+    cases fuel with
+    | zero => simp at hfuel
+    | succ f =>
+      obtain ⟨hpos, hle⟩ := hok c (by simp)
+      simp only [List.mapM_cons, bind, Option.bind] at hm
+      cases hu : unsnap c with
+      | none => simp [hu] at hm
+      | some d =>
+        cases hr : r.mapM unsnap with
+        | none => simp [hu, hr] at hm
+        | some ds =>
+          simp [hu, hr] at hm
+          subst hm
+          rw [snappyChunks]
+          have hne : ((c :: r).flatMap frameBlock).isEmpty = false := by
+            simp [frameBlock, eI32]
+            intro h; have := congrArg List.length h; simp at this
+          simp only [List.flatMap_cons, frameBlock, List.append_assoc] at hne ⊢
+          simp only [hne, Bool.false_eq_true, if_false]
+          rw [show eI32 (c.length : Int) = encI 4 (c.length : Int) from rfl,
+            readI_append 4 (by decide) _ (by unfold inI; simp; omega)]
+          have h1 : ¬ ((c.length : Int) ≤ 0) := by omega
+          have h2 : ¬ ((c.length : Int).toNat > (c ++ r.flatMap frameBlock).length) := by simp
+          simp only [h1, h2, if_false]
+          have h3 : (c.length : Int).toNat = c.length := by simp
+          rw [h3, List.take_left', List.drop_left', hu]
+          · have := ih ds f (acc ++ d) (fun x hx => hok x (by simp [hx])) hr (by simp at hfuel; omega)
+            simp only [this]; simp [List.append_assoc]
+          · rfl
+          · rfl
+
+
+/-- the chunk loop's fuel in `fromSlice` (`s.length + 1`) always suffices: every framed block takes at least four bytes -/
+theorem blocks_le_frame (blocks : List Bytes) : blocks.length ≤ (blocks.flatMap frameBlock).length := by
+  induction blocks with
+  | nil => simp
+  | cons c r ih => simp only [List.flatMap_cons, List.length_append, List.length_cons, frameBlock, eI32, encI, be_length]; omega
+
+/-- **xerial framing round trip** (`SnappyReader::read_to_end`): a stream of well-formed blocks is accepted and decodes to
+    the concatenation of the block decoder's outputs -/
+theorem C02_xerial (unsnap : Bytes → Option Bytes) (blocks outs : List Bytes) (hok : ∀ c ∈ blocks, blockOK c)
+    (hdec : blocks.mapM unsnap = some outs) :
+    ∃ s, validateStream (xerialFrame blocks) = .ok s ∧ snappyChunks unsnap (s.length + 1) s [] = .ok outs.flatten := by
+  refine ⟨_, validate_frame blocks, ?_⟩
+  have := chunks_frame unsnap blocks outs ((blocks.flatMap frameBlock).length + 1) [] hok hdec (by
+    have := blocks_le_frame blocks; omega)
+  simpa using this
+
+/-! ### the hypotheses are satisfiable: identity codecs behind real framing -/
+
+def chunksOf : Nat → Bytes → List Bytes
+  | 0, _ => []
+  | f+1, b => if b.isEmpty then [] else b.take 1000 :: chunksOf f (b.drop 1000)
+
+theorem chunksOf_flatten : ∀ (f : Nat) (b : Bytes), b.length ≤ f → (chunksOf f b).flatten = b := by
+  intro f
+  induction f with
+  | zero => intro b h; have : b = [] := List.eq_nil_of_length_eq_zero (by omega)
+            subst this; rfl
+  | succ f ih =>
+    intro b h
+    simp only [chunksOf]
+    by_cases hb : b.isEmpty
+    · simp [hb]; exact (List.isEmpty_iff.mp hb)
+    · simp only [hb, Bool.false_eq_true, if_false, List.flatten_cons]
+      have hpos : 0 < b.length := by
+        cases b with
+        | nil => simp at hb
+        | cons _ _ => simp
+      rw [ih (b.drop 1000) (by simp; omega), List.take_append_drop]
+
+theorem chunksOf_ok : ∀ (f : Nat) (b : Bytes), ∀ c ∈ chunksOf f b, blockOK c := by
+  intro f
+  induction f with
+  | zero => intro b c hc; simp [chunksOf] at hc
+  | succ f ih =>
+    intro b c hc
+    simp only [chunksOf] at hc
+    by_cases hb : b.isEmpty
+    · simp [hb] at hc
+    · simp only [hb, Bool.false_eq_true, if_false, List.mem_cons] at hc
+      rcases hc with rfl | hc
+      · have hpos : 0 < b.length := by
+          cases b with
+          | nil => simp at hb
+          | cons _ _ => simp
+        unfold blockOK; simp only [List.length_take]; omega
+      · exact ih _ c hc
+
+theorem mapM_some (l : List Bytes) : l.mapM (fun x => (some x : Option Bytes)) = some l := by
+  induction l with
+  | nil => rfl
+  | cons a r ih => simp [List.mapM_cons, ih]
+
+def idCodecs : Codecs := ⟨some, some⟩
+def idComp (c : Int) (b : Bytes) : Bytes := if c = 2 then xerialFrame (chunksOf b.length b) else b
+
+theorem idInv : Inv idCodecs idComp where
+  gzip := fun b => by simp [idCodecs, idComp]
+  snappy := fun b => by
+    have := C02_xerial (fun x => some x) (chunksOf b.length b) (chunksOf b.length b) (chunksOf_ok _ b) (mapM_some _)
+    rw [chunksOf_flatten b.length b (Nat.le_refl _)] at this
+    simpa [idCodecs, idComp] using this
+
+
+/-! ### non-vacuity: a concrete two-level log entry -/
+def mA : Msg := ⟨5, 0, none, some [1, 2, 3]⟩
+def mB : Msg := ⟨7, 0, some [9], some []⟩
+def mC : Msg := ⟨8, 0, none, none⟩
+/-- snappy{ gzip{mA, mB}, mC } with the wrappers carrying the last inner offset -/
+def exEntry : Entry 2 := .inr (true, 8, [.inr (false, 7, [mA, mB]), .inl mC])
+
+theorem mOK (m : Msg) (h1 : inI 8 m.offset) (h2 : inI 1 m.attr) (hk : ∀ x, m.key = some x → x.length ≤ 100)
+    (hv : ∀ x, m.value = some x → x.length ≤ 100000) : msgOK m := by
+  refine ⟨h1, h2, fun x hx => by have := hk x hx; omega, fun x hx => by have := hv x hx; omega, ?_⟩
+  cases hkk : m.key <;> cases hvv : m.value <;> simp [msgBody, eI8, eNBytes, eBytes, eI32, encI, be_length]
+  · have := hv _ hvv; omega
+  · have := hk _ hkk; omega
+  · have := hk _ hkk; have := hv _ hvv; omega
+
+set_option maxRecDepth 20000 in
+example : entryOK idComp 2 exEntry := by
+  refine ⟨mOK _ (by decide) (by decide) (by intro x hx; cases hx) (by intro x hx; cases hx; decide), ?_⟩
+  intro e he
+  simp only [List.mem_cons, List.mem_nil_iff, or_false] at he
+  rcases he with rfl | rfl
+  · refine ⟨mOK _ (by decide) (by decide) (by intro x hx; cases hx) (by intro x hx; cases hx; decide), ?_⟩
+    intro e he
+    simp only [List.mem_cons, List.mem_nil_iff, or_false] at he
+    rcases he with rfl | rfl
+    · exact ⟨mOK _ (by decide) (by decide) (by intro x hx; cases hx) (by intro x hx; cases hx; decide), by unfold isPlain; decide⟩
+    · exact ⟨mOK _ (by decide) (by decide) (by intro x hx; cases hx; decide) (by intro x hx; cases hx; decide), by unfold isPlain; decide⟩
+  · exact ⟨mOK _ (by decide) (by decide) (by intro x hx; cases hx) (by intro x hx; cases hx), by unfold isPlain; decide⟩
+
+end Kafka.Props.C02.Nested
+
